@@ -297,24 +297,23 @@ def releaseAbsorbedKeysIdx (s : State) : Option (State × List Event) :=
 
 /-! ## `add_new_mapping`, `newly_press`, `newly_release`, `step`, `release_all` -/
 
-/-- `add_new_mapping`, second part: the `if produces_action_key(m) { … }` block (fix of D7:
-`produces_action_key` is `m.to.iter().any(is_action_key)`, an iterator, so the condition itself has no
-panic outcome; before the fix it was `is_action_mapping(m)`, an indexed access) -/
+/-- `add_new_mapping`, second part: `if produces_action_key(m) { release_action_mappings }`, then
+`if should_absorb && (produces_action_key(m) || m.absorbing.len() > 0) { release_absorbed_keys; consume }`
+(fix of D7: `produces_action_key` is `m.to.iter().any(is_action_key)`, an iterator, so the condition itself has no
+panic outcome; before the fix it was `is_action_mapping(m)`, an indexed access.  Fix of D6: the second block is no
+longer nested in the first; `m.absorbing.len() > 0` has no panic outcome either.) -/
 def addPhase2Idx (s : State) (newKey : Key) (m : Mapping) : Option (State × List Event) :=
-  match producesActionKey m with
-  | false => some (s, [])
-  | true =>
-    match releaseActionMappingsIdx s with
-    | none => none
-    | some r1 =>
-      if shouldAbsorb r1.1 newKey then
-        match releaseAbsorbedKeysIdx r1.1 with
-        | none => none
-        | some r2 =>
-          -- fix of D5: consume the pass-through keys once more (no index arithmetic: a `retain`)
-          let r3 := addPhase1 r2.1 m
-          some (r3.1, r1.2 ++ r2.2 ++ r3.2)
-      else some r1
+  match (if producesActionKey m then releaseActionMappingsIdx s else some (s, [])) with
+  | none => none
+  | some r1 =>
+    if shouldAbsorb r1.1 newKey && (producesActionKey m || decide (m.absorbing.length > 0)) then
+      match releaseAbsorbedKeysIdx r1.1 with
+      | none => none
+      | some r2 =>
+        -- fix of D5: consume the pass-through keys once more (no index arithmetic: a `retain`)
+        let r3 := addPhase1 r2.1 m
+        some (r3.1, r1.2 ++ r2.2 ++ r3.2)
+    else some r1
 
 /-- `add_new_mapping` (parts one, three and four have no index arithmetic) -/
 def addNewMappingIdx (s : State) (newKey : Key) (m : Mapping) : Option (State × StepResult) :=
